@@ -47,6 +47,22 @@ def norm(v):
     return v
 
 
+def version_by_build_cli(d, vf) -> dict:
+    """DEFAULT_SEQ_NUM / DEFAULT_VERSION as a template sees them when rendered by `ncs/build.py template --version_file`."""
+    import subprocess
+    import yaml
+    t, o, c = d / "probe.jinja2", d / "probe.yaml", d / "probe.config"
+    t.write_text('{% if DEFAULT_SEQ_NUM is defined %}DEFAULT_SEQ_NUM: "{{ DEFAULT_SEQ_NUM }}"\n{% endif %}'
+                 '{% if DEFAULT_VERSION is defined %}DEFAULT_VERSION: "{{ DEFAULT_VERSION }}"\n{% endif %}')
+    c.write_text("CONFIG_VERIF=y\n")
+    if o.exists():
+        o.unlink()
+    subprocess.run([core.PY, str(core.REPO / "ncs" / "build.py"), "template", "--core", f"probe,,,{c}", "--zephyr-base", str(d),
+                    "--artifacts-folder", str(d) + "/", "--template-suit", str(t), "--output-suit", str(o), "--version_file", str(vf)],
+                   cwd=d, env=core.cli_env(), capture_output=True, text=True)
+    return (yaml.safe_load(o.read_text()) or {}) if o.exists() else {}
+
+
 def run(ctx: core.Check):
     ctx.cov["rule"] = ("versions N(.N)*[-(alpha|beta|rc)[.N]]: the bounded domain of Version_MC (all pairs checked by TLC, every "
                        "element replayed) + seeded versions with fields up to 300 and all ordered pairs among a sample; "
@@ -127,7 +143,10 @@ def run(ctx: core.Check):
         lines.append(f"EXTRAVERSION = {text}")
         f.write_text("\n".join(lines) + "\n")
         try:
-            items = dict(build.read_version_file(str(f)))
+            if k % 10 == 7:
+                items = version_by_build_cli(d, f)   # the build system's command line: build.py template --version_file
+            else:
+                items = dict(build.read_version_file(str(f)))
         except Exception:
             items = {}
         seq = items.get("DEFAULT_SEQ_NUM")
